@@ -54,3 +54,10 @@ M("c04-classifier-walks-any-exception", "C04", A, "is_anyio_cancellation", "    
 M("c04-fail-at-drops-shield", "C04", TASKS, "fail_at", "shield=shield", "shield=False", ["R04-g"])
 M("c04-move-on-after-drops-shield", "C04", TASKS, "move_on_after", "shield=shield", "shield=False", ["R04-g"])
 M("c04-public-scope-drops-shield", "C04", TASKS, "CancelScope.__new__", "create_cancel_scope(shield=shield, deadline=deadline)", "create_cancel_scope(deadline=deadline)", ["R04-g"])
+
+# from seeded change C04/c (round 2): the worker thread attached outside the caller's shields
+M("c04-worker-scope-walks-past-shields", "C04", A, "AsyncIOBackend.run_sync_in_worker_thread",
+  "                if abandon_on_cancel or scope._parent_scope is None:\n                    worker_scope = scope\n                else:\n                    worker_scope = scope._parent_scope\n",
+  "                worker_scope = scope\n                while worker_scope.shield and worker_scope._parent_scope is not None:\n                    worker_scope = worker_scope._parent_scope\n", ["R04-h"])
+M("c04-worker-scope-grandparent", "C04", A, "AsyncIOBackend.run_sync_in_worker_thread",
+  "                    worker_scope = scope._parent_scope\n", "                    worker_scope = scope._parent_scope._parent_scope or scope._parent_scope\n", ["R04-h"])
